@@ -309,6 +309,15 @@ def run(F, rep):
             rep.check(not extra, 'C18.F1', g.short + '/%d' % len(g.params), g.where(), '%s reads %s: its answer can come from bookkeeping that is not kept in step with the connection graph' % (g.short, extra), 'reads %s' % sorted(rd))
     if n_f < 3:
         raise AnalysisBroken('C18.F1: equivalence queries of VariableImpl: %d found, 4 confirmed' % n_f)
+    # ... nor from where a variable sits: the network search (haveEquivalentVariables and what it calls) asks no variable for its parent / owner - a variable that was
+    # taken out of its component still links its neighbours, and pruning it makes a~x, x~b true but a~b false
+    hev = [g for g in F.funcs.values() if g.name == 'haveEquivalentVariables' and g.file.endswith('/variable.cpp')]
+    if not hev:
+        raise AnalysisBroken('C18.F1: haveEquivalentVariables vanished')
+    for g in hev:
+        own = sorted({c.get('fn') for k_ in F.reach([g.key]) if k_ in F.funcs and F.funcs[k_].file.endswith('/variable.cpp') for c in F.funcs[k_].walk()
+                      if c.get('k') == 'Call' and c.get('fn') in ('parent', 'hasParent', 'owningComponent', 'owningModel', 'hasAncestor')})
+        rep.check(not own, 'C18.F1', 'haveEquivalentVariables|no ownership test', g.where(), 'the network search consults %s: whether two variables are equivalent then depends on where an intermediate variable sits, not only on the equivalence lists' % own, 'follows the lists only')
 
     rep.rule('C18.Q1', 'the equivalence queries of Variable are pure: no const member function of Variable/VariableImpl writes a data member (a per-variable memo of a property of the whole connection graph is stale as soon as two OTHER variables are connected or disconnected)')
     import fields
